@@ -1,136 +1,564 @@
-//! Coverage-guided *structured* fuzzing: the libFuzzer input is used as the entropy source of the property's own
-//! proptest strategy (proptest's pass-through RNG), so libFuzzer mutates the random choices that build a case
-//! (message shape, schedule, filter configuration, model layout ...) and its coverage feedback steers them, while
-//! the oracle is the same `check` function the seeded search uses.  A failing input is turned back into the case,
-//! shrunk with proptest's simplify/complicate protocol under the same violation signature, and saved as an ordinary
-//! replay file of the property (the saved case, not the fuzzer input, is the reproducible unit).
+//! Coverage-guided *structured* fuzzing (libFuzzer target `strat`): the fuzzer input is decoded by hand — an
+//! `arbitrary`-style data-provider layer — into the same `Case` values the seeded proptest search generates
+//! (well-formed message, suffix, read / poll schedule, filter configuration, merge history ...), and judged by the
+//! same `check` function.  libFuzzer mutates the choices that build a case and its coverage feedback steers them.
+//! Decoding is total (an exhausted input reads as zeros) and sound by construction: it builds messages through
+//! `gen::message::finish`, i.e. inside the domain of well-formed messages the properties quantify over.
+//! A failing input is minimised at byte level under the same violation signature, decoded once more, and the
+//! *decoded case* is saved as an ordinary replay file of the property (the reproducible unit).
+//!
+//! (A first attempt drove the proptest strategies themselves from the fuzzer bytes through proptest's pass-through
+//! RNG.  That does not work: every `prop_flat_map` / `prop_perturb` forks the RNG and a pass-through RNG forks by
+//! halving the remaining byte window, so nested strategies run out of entropy after a few levels, and the all-zero
+//! stream an exhausted window yields is rejected forever by rand's uniform sampling — DESIGN.md section 9.)
+use super::readers::{Schedule, Step};
 use super::*;
 use crate::gen::message as g;
-use crate::runner::{CheckResult, Violation};
-use proptest::prelude::*;
-use proptest::strategy::ValueTree;
-use proptest::test_runner::{Config, RngAlgorithm, TestRng, TestRunner};
-use serde::Serialize;
+use crate::model::*;
+use crate::refcodec;
+use crate::runner::CheckResult;
+use crate::util::{expand_bytes, expand_text};
 use serde_json::{json, Value as Json};
-use std::fmt::Debug;
 
 pub struct Outcome {
     /// section name under which the property's `replay` understands the case
     pub section: &'static str,
-    /// the (shrunk, when asked) case — `Null` when the check passed
     pub case: Json,
     pub result: CheckResult,
 }
 
-fn drive<C: Debug + Serialize, S: Strategy<Value = C>>(strat: &S, data: &[u8], check: &dyn Fn(&C) -> CheckResult, shrink: bool) -> Option<(Json, CheckResult)> {
-    let cfg = Config { failure_persistence: None, ..Config::default() };
-    // entropy = the fuzzer bytes followed by a fixed pseudo-random tail: rand's uniform sampling rejects some draws, and
-    // the all-zero stream the pass-through RNG produces once it is exhausted would be rejected forever
-    let mut entropy = Vec::with_capacity(data.len() + TAIL_LEN);
-    entropy.extend_from_slice(data);
-    entropy.extend_from_slice(tail());
-    let mut runner = TestRunner::new_with_rng(cfg, TestRng::from_seed(RngAlgorithm::PassThrough, &entropy));
-    let mut tree = strat.new_tree(&mut runner).ok()?;
-    let first = tree.current();
-    match check(&first) {
-        Ok(p) => Some((Json::Null, Ok(p))),
-        Err(v0) => {
-            if !shrink {
-                return Some((json!(first), Err(v0)));
+/// properties served by the structured target
+pub const PROPERTIES: [&str; 12] = ["C01", "C02", "C05", "C06", "C07", "C08", "C09", "C10", "C15", "C17", "C18", "C19"];
+
+// ------------------------------------------------------------------------------------------------
+// the data provider
+
+pub struct U<'a> {
+    b: &'a [u8],
+    p: usize,
+}
+impl<'a> U<'a> {
+    pub fn new(b: &'a [u8]) -> Self {
+        U { b, p: 0 }
+    }
+    pub fn u8(&mut self) -> u8 {
+        let v = self.b.get(self.p).copied().unwrap_or(0);
+        self.p += 1;
+        v
+    }
+    pub fn u16(&mut self) -> u16 {
+        u16::from_le_bytes([self.u8(), self.u8()])
+    }
+    pub fn u32(&mut self) -> u32 {
+        u32::from_le_bytes([self.u8(), self.u8(), self.u8(), self.u8()])
+    }
+    pub fn u64(&mut self) -> u64 {
+        (self.u32() as u64) | (self.u32() as u64) << 32
+    }
+    pub fn u128(&mut self) -> u128 {
+        (self.u64() as u128) | (self.u64() as u128) << 64
+    }
+    /// a number in 0..n
+    pub fn below(&mut self, n: usize) -> usize {
+        if n <= 1 {
+            0
+        } else if n <= 256 {
+            self.u8() as usize % n
+        } else if n <= 65536 {
+            self.u16() as usize % n
+        } else {
+            self.u32() as usize % n
+        }
+    }
+    pub fn bool(&mut self) -> bool {
+        self.u8() & 1 != 0
+    }
+    /// true with probability `num`/256
+    pub fn chance(&mut self, num: u8) -> bool {
+        self.u8() < num
+    }
+    pub fn pick<T: Clone>(&mut self, v: &[T]) -> T {
+        v[self.below(v.len())].clone()
+    }
+    /// up to `max` bytes (fewer when the input ends)
+    pub fn bytes(&mut self, max: usize) -> Vec<u8> {
+        let n = self.below(max + 1);
+        let avail = self.b.len().saturating_sub(self.p);
+        let n = n.min(avail);
+        let v = self.b[self.p.min(self.b.len())..self.p.min(self.b.len()) + n].to_vec();
+        self.p += n;
+        v
+    }
+    pub fn rest(&mut self) -> Vec<u8> {
+        let v = self.b[self.p.min(self.b.len())..].to_vec();
+        self.p = self.b.len();
+        v
+    }
+}
+
+// ------------------------------------------------------------------------------------------------
+// decoders (mirror gen::message clause by clause)
+
+const CHARS: &[&str] = &["A", "b", "7", " ", "_", "D", "L", "T", "\u{1}", "\u{7f}", "é", "ß", "€", "日", "𝄞", "~", "/", "\"", "<", "&"];
+const POOL: &[&str] = &["", "A", "APP", "APP1", "CTX", "ECU", "é", "€a", "TEST", "Ab7 "];
+
+fn short_text(u: &mut U, max: usize) -> String {
+    let n = u.below(max.min(12) + 1);
+    let mut s = String::new();
+    for _ in 0..n {
+        let c = CHARS[u.below(CHARS.len())];
+        if s.len() + c.len() <= max {
+            s.push_str(c);
+        }
+    }
+    s
+}
+fn text(u: &mut U, big: usize) -> String {
+    match u.below(17) {
+        0..=11 => short_text(u, 12),
+        12..=15 => expand_text(u.u64(), u.below(64), u.below(4) as u8),
+        _ => expand_text(u.u64(), u.below(big + 1), u.below(4) as u8),
+    }
+}
+fn blob(u: &mut U, big: usize) -> Vec<u8> {
+    match u.below(15) {
+        0..=9 => u.bytes(11),
+        10..=13 => expand_bytes(u.u64(), u.below(64), u.below(6) as u8),
+        _ => expand_bytes(u.u64(), u.below(big + 1), u.below(6) as u8),
+    }
+}
+fn id(u: &mut U, pool: bool) -> String {
+    if pool {
+        return POOL[u.below(POOL.len())].to_string();
+    }
+    match u.below(9) {
+        0..=3 => short_text(u, 4),
+        4..=6 => {
+            let n = 1 + u.below(4);
+            (0..n).map(|_| b"ABCDEFGHIJKLMNOPQRSTUVWXYZ0123456789"[u.below(36)] as char).collect()
+        }
+        7 => String::new(),
+        _ => u.pick(&["ECU", "APP", "CON", "DLT\u{1}", "TEST", "€a", "𝄞"]).to_string(),
+    }
+}
+fn uint_value(u: &mut U, bits: u8) -> u128 {
+    let mask: u128 = if bits == 128 { u128::MAX } else { (1u128 << bits) - 1 };
+    match u.below(9) {
+        0..=2 => u.pick(&[0u128, 1, 2, 0x7f, 0x80, 0xff, 0x100, 1000, u128::MAX, u128::MAX >> 1, (u128::MAX >> 1) + 1]) & mask,
+        3..=6 => u.u128() & mask,
+        _ => {
+            let v = u.u128();
+            (v >> u.below(128)) & mask
+        }
+    }
+}
+fn sint_value(u: &mut U, bits: u8) -> i128 {
+    let sh = 128 - bits as u32;
+    ((uint_value(u, bits) << sh) as i128) >> sh
+}
+fn f32_bits(u: &mut U) -> u32 {
+    if u.chance(96) {
+        u.pick(&[0u32, 0x8000_0000, 0x3f80_0000, 0xbf80_0000, 0x7f80_0000, 0xff80_0000, 0x7fc0_0000, 0x7fa0_0001, 0xffc1_2345, 1, 0x007f_ffff, 0x3c23_d70a, 0x3dcc_cccd, 0x4120_0000, 0x3f00_0000])
+    } else {
+        u.u32()
+    }
+}
+fn f64_bits(u: &mut U) -> u64 {
+    if u.chance(96) {
+        u.pick(&[0u64, 0x8000_0000_0000_0000, 0x3ff0_0000_0000_0000, 0x7ff0_0000_0000_0000, 0xfff0_0000_0000_0000, 0x7ff8_0000_0000_0000, 0x7ff4_0000_0000_0001, 1])
+    } else {
+        u.u64()
+    }
+}
+pub fn value_for(u: &mut U, kind: RKind, big: usize) -> RVal {
+    match kind {
+        RKind::Bool => RVal::Bool(if u.chance(170) { u.below(2) as u8 } else { u.u8() }),
+        RKind::Sint(b) | RKind::SintFx(b) => RVal::I(sint_value(u, b)),
+        RKind::Uint(b) | RKind::UintFx(b) => RVal::U(uint_value(u, b)),
+        RKind::Float(32) => RVal::F32(f32_bits(u)),
+        RKind::Float(_) => RVal::F64(f64_bits(u)),
+        RKind::Str => RVal::Str(text(u, big)),
+        RKind::Raw => RVal::Raw(blob(u, big)),
+    }
+}
+fn kind(u: &mut U) -> RKind {
+    match u.below(21) {
+        i @ 0..=17 => g::ALL_KINDS[i],
+        18 | 19 => RKind::Raw,
+        _ => RKind::Str,
+    }
+}
+fn arg(u: &mut U, big: usize) -> RArg {
+    let kind = kind(u);
+    let val = value_for(u, kind, big);
+    let scod = match u.below(8) {
+        0..=2 => 0,
+        3..=5 => 1,
+        _ => 2 + u.below(6) as u8,
+    };
+    let vari = u.chance(90);
+    let trai = u.chance(38);
+    let numeric = !matches!(kind, RKind::Bool | RKind::Str | RKind::Raw);
+    let name = if vari { Some(text(u, 200)) } else { None };
+    let unit = if vari && numeric { Some(text(u, 200)) } else { None };
+    let fixp = match kind {
+        RKind::SintFx(32) | RKind::UintFx(32) => Some((f32_bits(u), sint_value(u, 64) as i32 as i64)),
+        RKind::SintFx(_) | RKind::UintFx(_) => Some((f32_bits(u), sint_value(u, 64) as i64)),
+        _ => None,
+    };
+    RArg { ty: RType { kind, vari, trai, scod }, name, unit, fixp, val }
+}
+fn nw_arg(u: &mut U, big: usize) -> RArg {
+    RArg { ty: RType { kind: RKind::Raw, vari: false, trai: false, scod: 0 }, name: None, unit: None, fixp: None, val: RVal::Raw(blob(u, big)) }
+}
+fn arg_count(u: &mut U, large: bool) -> usize {
+    if large {
+        match u.below(23) {
+            0..=19 => u.below(8),
+            20 | 21 => 8 + u.below(32),
+            _ => 200 + u.below(56),
+        }
+    } else {
+        u.below(6)
+    }
+}
+
+/// a well-formed message (the decoder counterpart of `gen::message::message`)
+pub fn message(u: &mut U, storage: g::StorageMode, large: bool, pool: bool) -> RMsg {
+    let big = if large { 65535 } else { 40 };
+    let flags = u.u8();
+    let ueh = u.chance(205);
+    let mcnt = u.u8();
+    let with_storage = match storage {
+        g::StorageMode::Never => false,
+        g::StorageMode::Always => true,
+        g::StorageMode::Either => u.bool(),
+    };
+    let (sh_ecu, ecu, apid, ctid) = (id(u, pool), id(u, pool), id(u, pool), id(u, pool));
+    let (secs, micros, seid, tmsp) = (u.u32(), u.u32(), u.u32(), u.u32());
+    let fill = if large && u.chance(4) { Some(u.pick(&[65535u32, 65534, 65533, 65520, 32767, 32768, 32769, 256, 257, 255])) } else { None };
+    let mtin = |u: &mut U| if u.chance(192) { u.below(8) as u8 } else { 8 + u.below(8) as u8 };
+    let (msin, payload) = if !ueh {
+        (0u8, RPayload::NonVerbose(u.u32(), blob(u, big)))
+    } else {
+        match u.below(20) {
+            0..=9 => {
+                let t = u.pick(&[0u8, 0, 0, 1, 3, 4, 5, 6, 7]);
+                let m = (t << 1) | (mtin(u) << 4) | 1;
+                let n = arg_count(u, large);
+                (m, RPayload::Verbose((0..n).map(|_| arg(u, big)).collect()))
             }
-            let sig = v0.sig.clone();
-            let mut best: (C, Violation) = (first, v0);
-            let mut iters = 0;
-            if tree.simplify() {
-                loop {
-                    iters += 1;
-                    if iters > 3000 {
-                        break;
-                    }
-                    let cur = tree.current();
-                    match check(&cur) {
-                        Err(v) if v.sig == sig => {
-                            best = (cur, v);
-                            if !tree.simplify() {
-                                break;
-                            }
-                        }
-                        _ => {
-                            if !tree.complicate() {
-                                break;
-                            }
-                        }
-                    }
-                }
+            10..=12 => {
+                let m = (2 << 1) | (mtin(u) << 4) | 1;
+                let n = arg_count(u, large);
+                (m, RPayload::Verbose((0..n).map(|_| nw_arg(u, big)).collect()))
             }
-            Some((json!(best.0), Err(best.1)))
+            13..=15 => {
+                let m = (3 << 1) | (mtin(u) << 4);
+                let service = if u.chance(170) { u.below(5) as u8 } else { u.u8() };
+                (m, RPayload::Control(service, blob(u, big)))
+            }
+            _ => {
+                let t = u.pick(&[0u8, 0, 1, 2, 4, 5, 6, 7]);
+                let m = (t << 1) | (mtin(u) << 4);
+                (m, RPayload::NonVerbose(u.u32(), blob(u, big)))
+            }
+        }
+    };
+    let htyp = (flags & !UEH) | if ueh { UEH } else { 0 };
+    let m = RMsg {
+        storage: if with_storage { Some(RStorage { secs, micros, ecu: sh_ecu }) } else { None },
+        htyp,
+        mcnt,
+        len: 0,
+        ecu: if htyp & WEID != 0 { Some(ecu) } else { None },
+        seid: if htyp & WSID != 0 { Some(seid) } else { None },
+        tmsp: if htyp & WTMS != 0 { Some(tmsp) } else { None },
+        ext: if ueh { Some(RExt { msin, noar: 0, apid, ctid }) } else { None },
+        payload,
+    };
+    g::finish(m, fill)
+}
+
+fn suffix(u: &mut U) -> Vec<u8> {
+    match u.below(13) {
+        0..=2 => vec![],
+        3..=6 => {
+            let mut b = u.bytes(39);
+            b.push(u.u8());
+            b
+        }
+        7 | 8 => u.pick(&[&b"D"[..], b"DL", b"DLT", b"DLT\x01", b"DLT\x01\0\0"]).to_vec(),
+        9..=11 => refcodec::encode(&message(u, g::StorageMode::Either, false, false)),
+        _ => expand_bytes(u.u64(), u.below(3000), u.below(6) as u8),
+    }
+}
+
+fn junk(u: &mut U) -> Vec<u8> {
+    let tail: &[u8] = u.pick(&[&b""[..], b"D", b"DL", b"DLT", b"DLTD", b"DLTDL", b"DLTDLT"]);
+    let mut j = match u.below(10) {
+        0 | 1 => return vec![],
+        2..=5 => {
+            let n = u.below(40);
+            (0..n).map(|_| [b'D', b'L', b'T', 1u8, 0, 9][u.below(6)]).collect::<Vec<u8>>()
+        }
+        6..=8 => u.bytes(59),
+        _ => expand_bytes(u.u64(), u.below(5000), u.below(6) as u8),
+    };
+    j.extend_from_slice(tail);
+    c06::scrub(j)
+}
+
+fn schedule(u: &mut U) -> Schedule {
+    let n = u.below(61);
+    let mut steps = vec![];
+    for _ in 0..n {
+        let b = u.u8();
+        steps.push(match b {
+            0..=0x3f => Step::Stall,
+            0x40..=0x9f => Step::Data(1 + (b as u16 & 7)),
+            0xa0..=0xef => Step::Data(1 + (b as u16 & 63)),
+            _ => Step::Data([1u16, 3, 4, 15, 16, 17, 19, 20, 21, 4096, 65535][(b as usize & 15) % 11]),
+        });
+    }
+    let then_chunk = match u.below(5) {
+        0 | 1 => 0,
+        2 | 3 => 1 + u.below(64) as u16,
+        _ => u.pick(&[1u16, 2, 3, 5, 7, 19, 21, 1000]),
+    };
+    Schedule { steps, then_chunk, then_stall: u.chance(64) }
+}
+
+fn stream(u: &mut U, storage: bool) -> Vec<u8> {
+    let st = if storage { g::StorageMode::Always } else { g::StorageMode::Never };
+    let msgs = |u: &mut U, max: usize| -> Vec<u8> {
+        let n = u.below(max + 1);
+        let mut b = vec![];
+        for _ in 0..n {
+            let large = u.chance(8);
+            b.extend(refcodec::encode(&message(u, st, large, false)));
+        }
+        b
+    };
+    match u.below(12) {
+        0..=5 => msgs(u, 7),
+        6..=8 => {
+            let mut b = msgs(u, 5);
+            let k = (u.u16() as usize * (b.len() + 1)) >> 16;
+            b.truncate(k);
+            b
+        }
+        _ => {
+            let mut out = msgs(u, 3);
+            if storage {
+                out.extend_from_slice(b"DLT\x01\0\0\0\0\0\0\0\0ECU\0");
+            }
+            let len: u16 = match u.below(7) {
+                0..=2 => u.below(4) as u16,
+                3 | 4 => 4 + u.below(26) as u16,
+                5 => 65535,
+                _ => u.u16(),
+            };
+            out.extend_from_slice(&[u.u8(), 1]);
+            out.extend_from_slice(&len.to_be_bytes());
+            out.extend(u.bytes(39));
+            out.extend(msgs(u, 2));
+            out
         }
     }
 }
 
-const TAIL_LEN: usize = 256 * 1024;
-fn tail() -> &'static [u8] {
-    static TAIL: std::sync::OnceLock<Vec<u8>> = std::sync::OnceLock::new();
-    TAIL.get_or_init(|| {
-        let mut x = 0x9E37_79B9_7F4A_7C15u64;
-        let mut v = Vec::with_capacity(TAIL_LEN);
-        while v.len() < TAIL_LEN {
-            x = crate::util::splitmix64(x);
-            v.extend_from_slice(&x.to_le_bytes());
-        }
-        v
-    })
+fn filter_ids(u: &mut U) -> Option<Vec<String>> {
+    if u.chance(100) {
+        return None;
+    }
+    let n = u.below(4);
+    Some(
+        (0..n)
+            .map(|_| {
+                let p = POOL[u.below(POOL.len())].to_string();
+                match u.below(17) {
+                    0..=11 => p,
+                    12 | 13 => format!("{}{}", p, u.pick(&["0", "1", "X", " ", "\u{0}", "é", "10"])),
+                    14 => p.chars().take(u.below(4)).collect(),
+                    15 => {
+                        if p.chars().any(|c| c.is_ascii_uppercase()) {
+                            p.to_ascii_lowercase()
+                        } else {
+                            p.to_ascii_uppercase()
+                        }
+                    }
+                    _ => format!(" {}", p),
+                }
+            })
+            .collect(),
+    )
 }
-
-macro_rules! cached {
-    ($ty:ty, $strat:expr, $check:expr, $data:expr, $shrink:expr) => {{
-        thread_local! {
-            static S: BoxedStrategy<$ty> = $strat.boxed();
-        }
-        S.with(|s| drive(s, $data, &$check, $shrink))
-    }};
-}
-
-/// properties served by the structured target
-pub const PROPERTIES: [&str; 17] = ["C01", "C02", "C03", "C04", "C05", "C06", "C07", "C08", "C09", "C10", "C11", "C13", "C15", "C16", "C17", "C18", "C19"];
-
-/// Build the case of property `id` from fuzzer bytes and judge it. `None` = property not served / no case.
-pub fn run(id: &str, data: &[u8], shrink: bool) -> Option<Outcome> {
-    crate::util::install_panic_hook();
-    let (section, r) = match id {
-        "C01" => ("roundtrip", cached!(c01::Case, c01::strategy(), c01::check, data, shrink)),
-        "C02" => {
-            let (&sel, rest) = data.split_first()?;
-            if sel & 1 == 0 {
-                ("encode", cached!(c02::Case, g::message(g::MsgParams::default()).prop_map(c02::Case::Encode), c02::check, rest, shrink))
-            } else {
-                ("decode", cached!(c02::Case, c02::decode_strategy(), c02::check, rest, shrink))
-            }
-        }
-        "C03" => ("entry-points", cached!(c03::Case, c03::strategy(), c03::check, data, shrink)),
-        "C04" => ("consumption", cached!(c04::Case, c04::strategy(), c04::check, data, shrink)),
-        "C05" => ("prefixes", cached!(c05::Case, c05::strategy(), c05::check, data, shrink)),
-        "C06" => ("resync", cached!(c06::Case, c06::strategy(), c06::check, data, shrink)),
-        "C07" => ("schedules", cached!(c07::Case, c07::strategy(), c07::check, data, shrink)),
-        "C08" => ("poll-schedules", cached!(c08::Case, c08::strategy(), c08::check, data, shrink)),
-        "C09" => ("filter", cached!(c09::Case, c09::strategy(), c09::check, data, shrink)),
-        "C10" => ("streams", cached!(c10::Case, c10::strategy(), c10::check, data, shrink)),
-        "C11" => ("models", cached!(c11::Case, c11::strategy(), c11::check, data, shrink)),
-        "C13" => {
-            let (&sel, rest) = data.split_first()?;
-            if sel & 1 == 0 {
-                ("construct", cached!(c13::Case, c13::strategy(), c13::check, rest, shrink))
-            } else {
-                ("arbitrary-payloads", cached!(c13::RawCase, c13::raw_strategy(), c13::check_raw, rest, shrink))
-            }
-        }
-        "C15" => ("configs", cached!(c15::Case, c15::strategy(), c15::check, data, shrink)),
-        "C16" => ("fixpoint", cached!(c16::Case, c16::strategy(), c16::check, data, shrink)),
-        "C17" => ("random", cached!(c17::Case, c17::strategy(), c17::check, data, shrink)),
-        "C18" => ("random", cached!(c18::Case, c18::strategy(), c18::check, data, shrink)),
-        "C19" => ("random", cached!(c19::Case, c19::strategy(), c19::check, data, shrink)),
-        _ => return None,
+fn filter(u: &mut U) -> c04::Filter {
+    let min_log_level = match u.below(6) {
+        0 | 1 => None,
+        2..=4 => Some(u.below(9) as u8),
+        _ => Some(u.u8()),
     };
-    let (case, result) = r?;
-    Some(Outcome { section, case, result })
+    let (app_ids, ecu_ids, context_ids) = (filter_ids(u), filter_ids(u), filter_ids(u));
+    let set_len = |l: &Option<Vec<String>>| l.as_ref().map(|v| v.iter().collect::<std::collections::BTreeSet<_>>().len() as i64).unwrap_or(0);
+    let (mut a, mut c) = (set_len(&app_ids) + u.below(3) as i64 - 1, set_len(&context_ids) + u.below(3) as i64 - 1);
+    match u.below(6) {
+        3 => a = 0,
+        4 => c = -5,
+        5 => {
+            a = 1000;
+            c = i64::MAX
+        }
+        _ => {}
+    }
+    c04::Filter { min_log_level, app_ids, ecu_ids, context_ids, app_id_count: a, context_id_count: c }
+}
+
+// ------------------------------------------------------------------------------------------------
+
+/// Decode the case of property `id` from fuzzer bytes and judge it. `None` = property not served by this target.
+pub fn run(id: &str, data: &[u8]) -> Option<Outcome> {
+    crate::util::install_panic_hook();
+    let mut u = U::new(data);
+    let u = &mut u;
+    let out = |section: &'static str, case: Json, result: CheckResult| Some(Outcome { section, case, result });
+    match id {
+        "C01" => {
+            // (mostly small messages: a 64 KiB case costs milliseconds under the sanitizer)
+            let large = u.chance(24);
+            let c = c01::Case { msg: message(u, g::StorageMode::Either, large, false), suffix: suffix(u), suffix2: suffix(u) };
+            let r = c01::check(&c);
+            out("roundtrip", json!(c), r)
+        }
+        "C02" => {
+            let large = u.chance(24);
+            let c = c02::Case::Encode(message(u, g::StorageMode::Either, large, false));
+            let r = c02::check(&c);
+            out("encode", json!(c), r)
+        }
+        "C05" => {
+            let large = u.chance(20);
+            let c = c05::Case { msg: message(u, g::StorageMode::Either, large, false) };
+            let r = c05::check(&c);
+            out("prefixes", json!(c), r)
+        }
+        "C06" => {
+            let c = match u.below(8) {
+                0 | 1 => c06::Case::Search(u.rest()),
+                2..=5 => {
+                    let large = u.chance(28);
+                    c06::Case::Parse { junk: junk(u), msg: message(u, g::StorageMode::Always, large, false), suffix: suffix(u), filter: if u.bool() { 0 } else { 1 + u.below(7) as u8 } }
+                }
+                _ => {
+                    let n = 1 + u.below(5);
+                    let msgs = (0..n).map(|_| message(u, g::StorageMode::Always, false, false)).collect();
+                    c06::Case::Stream { msgs, junks: (0..7).map(|_| junk(u)).collect(), filter: if u.bool() { 0 } else { 1 + u.below(7) as u8 } }
+                }
+            };
+            let r = c06::check(&c);
+            out("resync", json!(c), r)
+        }
+        "C07" | "C08" => {
+            let storage = u.bool();
+            let sched = schedule(u);
+            // (reader_kind 0 = ::new allocates the 10 MiB default buffer per reader: rare here)
+            let reader_kind = [1u8, 2, 1, 2, 1, 2, 1, 2, 1, 2, 1, 2, 1, 2, 3, 0][u.below(16)];
+            let filter = if u.chance(192) { 0 } else { 1 + u.below(7) as u8 };
+            let stream = stream(u, storage);
+            if id == "C07" {
+                let c = c07::Case { stream, storage, schedule: sched, reader_kind, filter, systematic: false };
+                let r = c07::check(&c);
+                out("schedules", json!(c), r)
+            } else {
+                let c = c08::Case { stream, storage, schedule: sched, reader_kind, filter, systematic: false };
+                let r = c08::check(&c);
+                out("poll-schedules", json!(c), r)
+            }
+        }
+        "C09" => {
+            let f = filter(u);
+            let msg = message(u, g::StorageMode::Either, false, true);
+            let sfx = suffix(u);
+            let borrowed = u.bool();
+            let (force_log, own, valid_min) = (u.bool(), [u.bool(), u.bool(), u.bool()], u.chance(100));
+            let c = c09::assemble(f, msg, sfx, borrowed, force_log, own, valid_min);
+            let r = c09::check(&c);
+            out("filter", json!(c), r)
+        }
+        "C10" => {
+            let storage = u.bool();
+            let st = if storage { g::StorageMode::Always } else { g::StorageMode::Never };
+            let n = u.below(40);
+            let msgs = (0..n).map(|_| c10::more_logs(message(u, st, false, true))).collect();
+            let splits = (0..u.below(5)).map(|_| u.u16()).collect();
+            let order = (0..u.below(6)).map(|_| u.u16()).collect();
+            let merges = (0..6).map(|_| (u.u16(), u.u16())).collect();
+            let c = c10::Case { storage, msgs, splits, order, merges };
+            let r = c10::check(&c);
+            out("streams", json!(c), r)
+        }
+        "C15" => {
+            let c = if u.chance(236) {
+                let large = u.chance(24);
+                c15::Case::Config { msg: message(u, g::StorageMode::Either, large, false), ts: (u.u32(), u.u32()), twist: [0u8, 0, 0, 0, 0, 0, 0, 0, 1, 2][u.below(10)] }
+            } else {
+                let kind = u.pick(&[RKind::Bool, RKind::Float(32), RKind::Float(64), RKind::Uint(32), RKind::Str]);
+                let vk = self::kind(u);
+                c15::Case::Valid { kind, val: value_for(u, vk, 20) }
+            };
+            let r = c15::check(&c);
+            out("configs", json!(c), r)
+        }
+        "C17" => {
+            let unit = if u.bool() { 1000u64 } else { 1_000_000 };
+            let max = (1u64 << 32) * unit - 1;
+            let x = match u.below(3) {
+                0 => u.u64() % (max + 1),
+                1 => (u.u64() >> u.below(64)).min(max),
+                _ => (u.u32() as u64) * unit + u.u64() % unit,
+            };
+            let c = c17::Case { unit, x };
+            let r = c17::check(&c);
+            out("random", json!(c), r)
+        }
+        "C18" => {
+            let kind = if u.chance(200) { u.pick(&[RKind::SintFx(32), RKind::SintFx(64), RKind::UintFx(32), RKind::UintFx(64)]) } else { self::kind(u) };
+            let q = if u.bool() { f32_bits(u) } else { u.pick(&[1.0f32, 0.5, 0.1, 0.01, 2.0, 10.0, 1e-9, 1e9, 4294967296.0, 0.25]).to_bits() };
+            let off = match u.below(4) {
+                0 => u.u64() as i64,
+                1 => u.pick(&[i64::MIN, i64::MAX, i32::MIN as i64, i32::MAX as i64, -1, 0, -200, -50]),
+                _ => u.below(2001) as i64 - 1000,
+            };
+            let vbits = u.pick(&[8u8, 16, 32, 64, 128, 32, 64]);
+            let val = match u.below(8) {
+                0..=2 => RVal::U(uint_value(u, vbits)),
+                3..=5 => RVal::I(sint_value(u, vbits)),
+                6 => RVal::U(u.below(100_000) as u128 & if vbits >= 32 { u128::MAX } else { (1u128 << vbits) - 1 }),
+                _ => {
+                    let vk = self::kind(u);
+                    value_for(u, vk, 20)
+                }
+            };
+            let c = c18::Case { kind, fixp: if u.chance(230) { Some((q, off, u.bool())) } else { None }, vbits, val };
+            let r = c18::check(&c);
+            out("random", json!(c), r)
+        }
+        "C19" => {
+            let c = if u.chance(200) {
+                let size = match u.below(6) {
+                    0..=2 => u.below(9),
+                    3 => u.below(400),
+                    4 => u.pick(&[255usize, 256, 4096, 65535]),
+                    _ => u.u16() as usize,
+                };
+                c19::Case::Field { buf: u.rest(), size }
+            } else {
+                c19::Case::Ids { ids: (0..16).map(|_| u.u8()).collect(), big_endian: u.bool() }
+            };
+            let r = c19::check(&c);
+            out("random", json!(c), r)
+        }
+        _ => None,
+    }
 }
